@@ -339,6 +339,8 @@ class Interp:
         return self.getattr(obj, node.attr, node)
 
     def getattr(self, obj, attr, node):
+        if obj is None and attr not in ("__class__",):
+            raise PyRaise("AttributeError", "'NoneType' object has no attribute %r" % attr, node)
         if attr == "__class__":
             from .lib import kind_of
             k = obj.cls.split("::")[-1] if isinstance(obj, SObj) else kind_of(obj).split(".")[-1]
